@@ -415,7 +415,7 @@ func checkC07(c *Ctx) {
 	for _, name := range names {
 		f := byName[name]
 		key := "DialogueRunner." + name
-		if f == m.fLP {
+		if m.fLP != nil && f == m.fLP {
 			c.obN("C07.R2", key, w.Pos(m.restore.Decl.Pos()), true, "exception: lineParser carries no state across calls (proved by C14.R1)", false)
 			continue
 		}
